@@ -139,3 +139,17 @@ Theorem C03_alt_compact_bool_elem_zero :
   read_val PCompact 9 TList (mkS [x11; x02] r0) = Ok (VList TBool [VBool false], mkS [] r0).
 Proof. exact compact_bool_elem_zero_accepted. Qed.
 Print Assumptions C03_alt_compact_bool_elem_zero.
+
+(* tie to the METHOD BODIES (regenerated table Generated/PrimOps.v, see C01_prim_ops_table): every regenerated writer row
+   of a scalar (write_bool, write_i8 / i16 / i32 / i64, write_double, write_uuid, write_bytes / string / faststr /
+   bytes_vec) of the binary and compact protocols, on every buffer kind, emits exactly the bytes the independent
+   specification Thrift/Spec.v prescribes for that scalar, and leaves the writer context unchanged *)
+From Coq Require Import String.
+From PV Require Import Thrift.PrimOp Thrift.PrimOpsSem Generated.PrimOps Proofs.PrimOpsP Proofs.PrimOpsTableP.
+Theorem C03_prim_ops_spec : forall r, In r prim_ops -> r_class r = "write"%string ->
+  forall p, pk_of (r_proto r) = Some p -> p <> PBinaryLE ->
+  forall k a c v, in_s 16 (a_id a) -> in_s 16 (w_last c) -> w_pend c = None ->
+    scalar_of (r_method r) a = Some v -> wt v = true ->
+    fl (run_w p k r a c) = Ok (sp p (annot v), c).
+Proof. exact prim_ops_spec. Qed.
+Print Assumptions C03_prim_ops_spec.
